@@ -23,19 +23,26 @@ from pycoin.coins.SolutionChecker import ScriptError
 from pycoin.satoshi import errno as ERRNO
 from pycoin.ecdsa.secp256k1 import secp256k1_generator as G
 
+from props import c03m as M   # model side: Lean model of pycoin's own VM vs the real VM (ops prefixed `vm_`, error codes compared)
+
 MANIFEST = {
     "text": "Bitcoin Core's pre-taproot script interpreter (EvalScript, VerifyScript, VerifyWitnessProgram, CScriptNum, CheckMinimalPush, "
             "signature/pubkey encoding rules, FindAndDelete, CLTV/CSV) written as an executable Lean specification and validated on every run "
             "against all of script_tests.json (result and error code), tx_valid.json and tx_invalid.json; the real BitcoinVM.eval_script and "
             "Tx.check_solution are compared with it (verdict, and final stack of single-script evaluations) on a deterministic table "
             "(every opcode value x operand class x executed/dead branch x flag class, all limits at n-1/n/n+1, every push form) and on "
-            "seeded stack-typed random programs, P2SH/P2WSH/P2WPKH wrappers, real signatures and multisig. The refinement theorems "
-            "model-of-pycoin = spec live in Props/C03.lean.",
+            "seeded stack-typed random programs, P2SH/P2WSH/P2WPKH wrappers, real signatures and multisig. Model side (ops vm_*): a Lean "
+            "model of pycoin's own VM (decoder, conditional counters, every handler of the generated INSTRUCTION_LOOKUP, CHECKSIG family, "
+            "check_solution pipeline) is tied to the code by generated tables and exact differential correspondence (stack, alt stack, op "
+            "count, errno), and proved to refine the specification (Props/C03.lean, C03_model_*): conditional counters = vfExec for every op "
+            "sequence; IntStreamer = CScriptNum; get_opcode = GetScriptOp + CheckMinimalPush for every script and pc; check_valid_signature = IsValidSignatureEncoding, hash-type and public-key encoding checks = Core's predicates, for every byte string; eval_instruction = one "
+            "iteration of Core's loop for every state and every opcode outside the CHECKSIG family; eval_script = EvalScript (verdict and "
+            "final stack) for every script without CHECKSIG-family instructions.",
     "note": "The signature check inside the spec is a parameter answered by a sig-oracle computed by the implementation's sighash and ECDSA "
             "(properties C04/C01); Core itself is not available offline, the spec is validated, not verified.",
     "technique": "Lean 4 executable specification + proof of refinement (Props/C03) + differential check implementation vs specification",
 }
-RULE = ("ops spec_eval (BitcoinVM.eval_script: verdict and final stack) and spec_verify (Tx.check_solution: verdict); deterministic table + "
+RULE = ("ops vm_* (model of pycoin's VM vs the real VM, error codes compared: harness/props/c03m.py); ops spec_eval (BitcoinVM.eval_script: verdict and final stack) and spec_verify (Tx.check_solution: verdict); deterministic table + "
         "seeded random programs; distinct = distinct op line; trivial = script of at most one byte; error codes are reported in evidence "
         "(error_code_agreement) and never compared for the verdict")
 ASSUMPTIONS = [
@@ -48,7 +55,7 @@ ASSUMPTIONS = [
     "run by script_tests.json (1205 entries incl. error codes), tx_valid.json (120) and tx_invalid.json (80)",
     "single-script evaluation in the base sigversion is observed as SolutionChecker does it (MINIMALIF and WITNESS_PUBKEYTYPE removed from the flags)",
     "taproot and CONST_SCRIPTCODE are outside the property",
-]
+] + ["model side: " + a for a in M.ASSUMPTIONS]
 TRUSTED = ["lean/Pycoin/Spec/Consensus.lean as a faithful rendering of Bitcoin Core's EvalScript/VerifyScript (validated against Core's JSON vectors on every run)"]
 
 Tx = BTC.tx
@@ -113,6 +120,8 @@ def _case(op: str) -> Case:
 
 def impl(op: str) -> str:
     k = op.split(" ", 1)[0]
+    if k.startswith("vm_"):
+        return M.impl(op)
     if k not in ("spec_eval", "spec_verify"):
         return "bad-op"
     out, err = _impl_case(_case(op))
@@ -127,6 +136,8 @@ def _canon(spec_x: str) -> str:
 
 def oracle(op: str, impl_out: str):
     """the property on the implementation: same verdict as the consensus spec, same stack on success"""
+    if op.startswith("vm_"):
+        return M.oracle(op, impl_out)
     want = SPEC.get(op)
     if want is None:
         c = S.case_from_op(op)
@@ -142,6 +153,8 @@ def oracle(op: str, impl_out: str):
 
 
 def trivial(op: str) -> bool:
+    if op.startswith("vm_"):
+        return M.trivial(op)
     a = op.split(" ")
     return len(a[2]) <= 2 and (a[0] == "spec_eval" or len(a[3]) <= 2)
 
@@ -1395,8 +1408,21 @@ def _emit_cases(cases, emit, ctx):
         c.info = None  # free the transaction
 
 
+class _VmCtx:
+    """the model-side stream runs on a fraction of its own budget inside C03 (its full budget: ./check C03M)"""
+
+    def __init__(self, ctx, scale):
+        self._ctx, self._scale = ctx, scale
+        self.rng, self.thorough, self.extra_cov = ctx.rng, ctx.thorough, ctx.extra_cov
+
+    def n(self, quick, thorough):
+        return max(1, int(self._ctx.n(quick, thorough) * self._scale))
+
+
 def gen(ctx, emit):
     rng = ctx.rng
+    # model side first: pycoin's VM against its Lean model (exact, error codes included)
+    M.gen(_VmCtx(ctx, 0.35 if ctx.thorough else 0.6), lambda op, kind="": emit(op, "vm:" + (kind or op.split(" ", 1)[0])))
     vec_cases, tx_cases = validate_spec(ctx)
     # Core's own vectors as differential cases too
     for c in vec_cases + tx_cases:
